@@ -247,6 +247,11 @@ func (p *parser) parseRegexpLabelParser() (*RegexpLabelParser, error) {
 }
 
 func (p *parser) parseLabelPredicate() (pred LabelPredicate, _ error) {
+	if err := p.enter(); err != nil {
+		return nil, err
+	}
+	defer p.leave()
+
 	switch t := p.next(); t.Type {
 	case lexer.OpenParen:
 		lp, err := p.parseLabelPredicate()
